@@ -177,7 +177,14 @@ Print Assumptions C01_ExtendedReport_alloc.
 (* BEGIN source-translation (generated by tools/mksourceprops.py; do not edit by hand) *)
 (* the decoders as translated from the Go source text on this run never panic and never run out of fuel (from the model-level totality theorems above through the equivalences).
    Gen/Funcs.v (module GoSrc) is written by srcgen/trans.go from /repo on every run; Lib/GoSem.v gives the meaning of its primitives. *)
-From RTCP Require Import Lib.Base Lib.GoSem Gen.Consts Gen.Funcs Model.Header Model.Reports Model.Sdes Model.ByeApp Model.Feedback Model.Twcc Model.Ccfb Model.Packet Proofs.SourceEquiv Proofs.SrcConv Proofs.SourceFeedback2 Proofs.SourceSR Proofs.SourceRR Proofs.SourceSdes Proofs.SourceByeApp Proofs.SourceFeedback1 Proofs.SourceCcfb Proofs.SourceTwccEnc Proofs.SourceTwccDec Proofs.SourcePacket.
+From RTCP Require Import Proofs.Tactics Lib.GoSem Gen.Funcs Check.GoOpaque Proofs.GoSemFacts Proofs.HeaderProofs
+  Model.Header Model.Reports Model.Sdes Model.ByeApp Model.Feedback Model.Twcc Model.Ccfb Model.Remb Model.Xr Model.Packet
+  Spec.Enc Spec.XrSpec Spec.Laws Proofs.Dgram Proofs.Assemble Proofs.Guards Proofs.PacketLevel Proofs.Reencode
+  Proofs.Misc Proofs.Extras Proofs.EncFeedback Proofs.Image1 Proofs.Image2 Proofs.Image3 Proofs.EncTwcc Proofs.TwccCorollaries Proofs.Total1 Proofs.Total2 Proofs.Total3
+  Proofs.SourceEquiv Proofs.SrcConv Proofs.SourceSR Proofs.SourceRR Proofs.SourceSdes Proofs.SourceByeApp
+  Proofs.SourceFeedback1 Proofs.SourceFeedback2 Proofs.SourceCcfb Proofs.SourceTwccEnc Proofs.SourceTwccDec
+  Proofs.SourcePacket Proofs.SourceCompound Proofs.SourceCompoundClosed.
+From RTCP Require Import Lib.Base Lib.GoSem Gen.Consts Gen.Funcs Model.Header Model.Reports Model.Sdes Model.ByeApp Model.Feedback Model.Twcc Model.Ccfb Model.Packet Proofs.SourceEquiv Proofs.SrcConv Proofs.SourceFeedback2 Proofs.SourceSR Proofs.SourceRR Proofs.SourceSdes Proofs.SourceByeApp Proofs.SourceFeedback1 Proofs.SourceCcfb Proofs.SourceTwccEnc Proofs.SourceTwccDec Proofs.SourcePacket Proofs.SourceCompound Proofs.SourceCompoundClosed Proofs.SourceTheorems.
 Module C01_SourceFeedback2.
 Import Proofs.SourceFeedback2.
 Local Open Scope Z_scope.
@@ -218,4 +225,128 @@ Theorem C01_source_RawPacket_Unmarshal_total : forall r0 b,
 Proof. exact src_RawPacket_Unmarshal_total. Qed.
 Print Assumptions C01_source_RawPacket_Unmarshal_total.
 End C01_SourceSdes.
+Module C01_SourceTheorems.
+Import Proofs.SourceTheorems.
+Local Open Scope N_scope.
+Theorem C01_src_Unmarshal_total : forall b : bytes, GoSrc.Unmarshal b <> Panic /\ GoSrc.Unmarshal b <> Fuel.
+Proof. exact source_C01_Unmarshal_total. Qed.
+Print Assumptions C01_src_Unmarshal_total.
+Theorem C01_src_unmarshal_total : forall b : bytes, GoSrc.unmarshal b <> Panic /\ GoSrc.unmarshal b <> Fuel.
+Proof. exact source_C01_unmarshal_total. Qed.
+Print Assumptions C01_src_unmarshal_total.
+Theorem C01_src_CompoundPacket_total : forall c0 (b : bytes),
+  GoSrc.CompoundPacket_Unmarshal c0 b <> Panic /\ GoSrc.CompoundPacket_Unmarshal c0 b <> Fuel.
+Proof. exact source_C01_CompoundPacket_total. Qed.
+Print Assumptions C01_src_CompoundPacket_total.
+Theorem C01_src_Header_total : forall h0 (b : bytes),
+  GoSrc.Header_Unmarshal h0 b <> Panic /\ GoSrc.Header_Unmarshal h0 b <> Fuel.
+Proof. exact source_C01_Header_total. Qed.
+Print Assumptions C01_src_Header_total.
+Theorem C01_src_ReceptionReport_total : forall r0 (b : bytes),
+  GoSrc.ReceptionReport_Unmarshal r0 b <> Panic /\ GoSrc.ReceptionReport_Unmarshal r0 b <> Fuel.
+Proof. exact source_C01_ReceptionReport_total. Qed.
+Print Assumptions C01_src_ReceptionReport_total.
+Theorem C01_src_SenderReport_total : forall b : bytes,
+  GoSrc.SenderReport_Unmarshal GoSrc.zero_SenderReport b <> Panic /\
+  GoSrc.SenderReport_Unmarshal GoSrc.zero_SenderReport b <> Fuel.
+Proof. exact source_C01_SenderReport_total. Qed.
+Print Assumptions C01_src_SenderReport_total.
+Theorem C01_src_ReceiverReport_total : forall b : bytes,
+  GoSrc.ReceiverReport_Unmarshal GoSrc.zero_ReceiverReport b <> Panic /\
+  GoSrc.ReceiverReport_Unmarshal GoSrc.zero_ReceiverReport b <> Fuel.
+Proof. exact source_C01_ReceiverReport_total. Qed.
+Print Assumptions C01_src_ReceiverReport_total.
+Theorem C01_src_SourceDescription_total : forall b : bytes,
+  GoSrc.SourceDescription_Unmarshal GoSrc.zero_SourceDescription b <> Panic /\
+  GoSrc.SourceDescription_Unmarshal GoSrc.zero_SourceDescription b <> Fuel.
+Proof. exact source_C01_SourceDescription_total. Qed.
+Print Assumptions C01_src_SourceDescription_total.
+Theorem C01_src_SourceDescriptionChunk_total : forall s0 (b : bytes),
+  GoSrc.SourceDescriptionChunk_Unmarshal s0 b <> Panic /\ GoSrc.SourceDescriptionChunk_Unmarshal s0 b <> Fuel.
+Proof. exact source_C01_SourceDescriptionChunk_total. Qed.
+Print Assumptions C01_src_SourceDescriptionChunk_total.
+Theorem C01_src_SourceDescriptionItem_total : forall s0 (b : bytes),
+  GoSrc.SourceDescriptionItem_Unmarshal s0 b <> Panic /\ GoSrc.SourceDescriptionItem_Unmarshal s0 b <> Fuel.
+Proof. exact source_C01_SourceDescriptionItem_total. Qed.
+Print Assumptions C01_src_SourceDescriptionItem_total.
+Theorem C01_src_Goodbye_total : forall b : bytes,
+  GoSrc.Goodbye_Unmarshal GoSrc.zero_Goodbye b <> Panic /\ GoSrc.Goodbye_Unmarshal GoSrc.zero_Goodbye b <> Fuel.
+Proof. exact source_C01_Goodbye_total. Qed.
+Print Assumptions C01_src_Goodbye_total.
+Theorem C01_src_ApplicationDefined_total : forall a0 (b : bytes),
+  GoSrc.ApplicationDefined_Unmarshal a0 b <> Panic /\ GoSrc.ApplicationDefined_Unmarshal a0 b <> Fuel.
+Proof. exact source_C01_ApplicationDefined_total. Qed.
+Print Assumptions C01_src_ApplicationDefined_total.
+Theorem C01_src_TransportLayerNack_total : forall p0 (b : bytes),
+  GoSrc.TransportLayerNack_Unmarshal p0 b <> Panic /\ GoSrc.TransportLayerNack_Unmarshal p0 b <> Fuel.
+Proof. exact source_C01_TransportLayerNack_total. Qed.
+Print Assumptions C01_src_TransportLayerNack_total.
+Theorem C01_src_RapidResynchronizationRequest_total : forall p0 (b : bytes),
+  GoSrc.RapidResynchronizationRequest_Unmarshal p0 b <> Panic /\ GoSrc.RapidResynchronizationRequest_Unmarshal p0 b <> Fuel.
+Proof. exact source_C01_RapidResynchronizationRequest_total. Qed.
+Print Assumptions C01_src_RapidResynchronizationRequest_total.
+Theorem C01_src_PictureLossIndication_total : forall p0 (b : bytes),
+  GoSrc.PictureLossIndication_Unmarshal p0 b <> Panic /\ GoSrc.PictureLossIndication_Unmarshal p0 b <> Fuel.
+Proof. exact source_C01_PictureLossIndication_total. Qed.
+Print Assumptions C01_src_PictureLossIndication_total.
+Theorem C01_src_SliceLossIndication_total : forall p0 (b : bytes),
+  GoSrc.SliceLossIndication_Unmarshal p0 b <> Panic /\ GoSrc.SliceLossIndication_Unmarshal p0 b <> Fuel.
+Proof. exact source_C01_SliceLossIndication_total. Qed.
+Print Assumptions C01_src_SliceLossIndication_total.
+Theorem C01_src_FullIntraRequest_total : forall p0 (b : bytes),
+  GoSrc.FullIntraRequest_Unmarshal p0 b <> Panic /\ GoSrc.FullIntraRequest_Unmarshal p0 b <> Fuel.
+Proof. exact source_C01_FullIntraRequest_total. Qed.
+Print Assumptions C01_src_FullIntraRequest_total.
+Theorem C01_src_TransportLayerCC_total : forall b : bytes,
+  GoSrc.TransportLayerCC_Unmarshal GoSrc.zero_TransportLayerCC b <> Panic /\
+  GoSrc.TransportLayerCC_Unmarshal GoSrc.zero_TransportLayerCC b <> Fuel.
+Proof. exact source_C01_TransportLayerCC_total. Qed.
+Print Assumptions C01_src_TransportLayerCC_total.
+Theorem C01_src_RunLengthChunk_total : forall r0 (b : bytes),
+  GoSrc.RunLengthChunk_Unmarshal r0 b <> Panic /\ GoSrc.RunLengthChunk_Unmarshal r0 b <> Fuel.
+Proof. exact source_C01_RunLengthChunk_total. Qed.
+Print Assumptions C01_src_RunLengthChunk_total.
+Theorem C01_src_StatusVectorChunk_total : forall r0 (b : bytes),
+  GoSrc.StatusVectorChunk_Unmarshal r0 b <> Panic /\ GoSrc.StatusVectorChunk_Unmarshal r0 b <> Fuel.
+Proof. exact source_C01_StatusVectorChunk_total. Qed.
+Print Assumptions C01_src_StatusVectorChunk_total.
+Theorem C01_src_RecvDelta_total : forall r0 (b : bytes),
+  GoSrc.RecvDelta_Unmarshal r0 b <> Panic /\ GoSrc.RecvDelta_Unmarshal r0 b <> Fuel.
+Proof. exact source_C01_RecvDelta_total. Qed.
+Print Assumptions C01_src_RecvDelta_total.
+Theorem C01_src_CCFeedbackReport_total : forall p0 (b : bytes),
+  GoSrc.CCFeedbackReport_Unmarshal p0 b <> Panic /\ GoSrc.CCFeedbackReport_Unmarshal p0 b <> Fuel.
+Proof. exact source_C01_CCFeedbackReport_total. Qed.
+Print Assumptions C01_src_CCFeedbackReport_total.
+Theorem C01_src_CCFeedbackReportBlock_total : forall b : bytes,
+  GoSrc.CCFeedbackReportBlock_unmarshal GoSrc.zero_CCFeedbackReportBlock b <> Panic /\
+  GoSrc.CCFeedbackReportBlock_unmarshal GoSrc.zero_CCFeedbackReportBlock b <> Fuel.
+Proof. exact source_C01_CCFeedbackReportBlock_total. Qed.
+Print Assumptions C01_src_CCFeedbackReportBlock_total.
+Theorem C01_src_CCFeedbackMetricBlock_total : forall m0 (b : bytes),
+  GoSrc.CCFeedbackMetricBlock_unmarshal m0 b <> Panic /\ GoSrc.CCFeedbackMetricBlock_unmarshal m0 b <> Fuel.
+Proof. exact source_C01_CCFeedbackMetricBlock_total. Qed.
+Print Assumptions C01_src_CCFeedbackMetricBlock_total.
+Theorem C01_src_RawPacket_total : forall r0 (b : bytes),
+  GoSrc.RawPacket_Unmarshal r0 b <> Panic /\ GoSrc.RawPacket_Unmarshal r0 b <> Fuel.
+Proof. exact source_C01_RawPacket_total. Qed.
+Print Assumptions C01_src_RawPacket_total.
+Theorem C01_src_Packet_Unmarshal_total : forall t (b : bytes), t <> TCompound ->
+  GoSrc.Packet_Unmarshal (zero_packet t) b <> Panic /\ GoSrc.Packet_Unmarshal (zero_packet t) b <> Fuel.
+Proof. exact source_C01_Packet_Unmarshal_total. Qed.
+Print Assumptions C01_src_Packet_Unmarshal_total.
+Theorem C01_src_datagram_alloc : forall b l, GoSrc.Unmarshal b = Ok l ->
+  exists ps, l = map src_packet ps /\
+    fold_right (fun p acc => elems p + acc) 0 ps <= (65535 + 13) * N.of_nat (List.length l) + 2 * len b /\
+    (4 * glenl l <= glen b)%Z /\
+    fold_right (fun p acc => elems p + acc) 0 ps <= 16388 * len b.
+Proof. exact source_C01_datagram_alloc. Qed.
+Print Assumptions C01_src_datagram_alloc.
+Theorem C01_src_TransportLayerCC_alloc : forall b t, GoSrc.TransportLayerCC_Unmarshal GoSrc.zero_TransportLayerCC b = Ok t ->
+  (20 + 2 * glenl (GoSrc.TransportLayerCC_PacketChunks t) <= glen b /\
+   glenl (GoSrc.TransportLayerCC_RecvDeltas t) <= GoSrc.TransportLayerCC_PacketStatusCount t + 13 /\
+   GoSrc.TransportLayerCC_PacketStatusCount t <= 65535)%Z.
+Proof. exact source_C01_TransportLayerCC_alloc. Qed.
+Print Assumptions C01_src_TransportLayerCC_alloc.
+End C01_SourceTheorems.
 (* END source-translation *)
